@@ -11,6 +11,7 @@
 import OidcModel.Spec.FlowObs
 import OidcModel.Proofs.C05
 import Std.Data.String.ToNat
+set_option linter.unusedSimpArgs false
 
 namespace FlowObs
 open Go Gen Hand Flow
@@ -40,6 +41,20 @@ def recOf (s' : Flow.St) (nr : Option String) : Option RefreshReq :=
 def mintedIn (s s' : Flow.St) : Option C07.RT :=
   (s'.store.refresh.find? fun r => (s.store.refresh.find? (·.token == r.token)).isNone).map toRT
 
+/-- the single tokens of a code-grant response, as the model issues them (deep3-C04): the ID token carries subject, azp and nonce
+    of the request; the access token (JWT claims / the record an opaque token resolves to) subject and scopes of the request
+    and the id of the authenticated client; the refresh token - if one is issued - what `createTokens` handed the storage for
+    it: the request (`Flow.mintTokens`) -/
+def carriedOf (a : AuthReq) (c : OPClient) (nr : Option String) : List C04.Carried :=
+  [{ kind := "id_token", subject := some a.subject, client := some a.clientID, nonce := some a.nonce },
+   { kind := "access_token", subject := some a.subject, client := some c.id, scopes := some a.scopes }] ++
+  match nr with
+  | some _ => [{ kind := "refresh_token", subject := some a.subject, client := some a.clientID, scopes := some a.scopes }]
+  | none => []
+
+def tokensOf (a : AuthReq) (c : OPClient) (nr : Option String) : C04.Tokens :=
+  { subject := a.subject, client := c.id, scopes := a.scopes, nonce := a.nonce, carried := carriedOf a c nr }
+
 /-- One step of the model (`s` before, `s'` after, operation, output) as the event an onlooker sees; `none`: nothing
     the monitors look at (a callback that ended in an error).  Tokens: what the response's tokens carry (`showOut`
     of the driver compares exactly these with the real response); refresh results: the record the storage holds for
@@ -49,7 +64,7 @@ def eventOf (s s' : Flow.St) : Flow.Op → Flow.Out → Option Event
   | .login id subject authTime, _ => some (.login id subject authTime)
   | .callback id _, .code c => some (.code id c)
   | .exchange _ req _, .issued (.code a c _) nr | .exchangeDeleteFails _ req _, .issued (.code a c _) nr =>
-    some (.exchange (presentedCode req) (some { subject := a.subject, client := c.id, scopes := a.scopes, nonce := a.nonce })
+    some (.exchange (presentedCode req) (some (tokensOf a c nr))
       ((recOf s' nr).map toRT))
   | .exchange _ req _, .error _ | .exchangeDeleteFails _ req _, .error _ =>
     some (.exchange (presentedCode req) none (mintedIn s s'))
@@ -267,26 +282,37 @@ open Go Gen Hand Flow
 theorem formGet_grant (g : String) : ({ kv := [("grant_type", g)] } : FormVals).Get "grant_type" = g := by
   simp [FormVals.Get]
 
+/-- the credentials of a `ClientCredentials` record as the code-grant request that carries them (for `C04.authClientSpec`) -/
+def ccAsReq (cc : ClientCredentials) : AccessTokenRequest :=
+  { ClientID := cc.ClientID, ClientSecret := cc.ClientSecret, ClientAssertionType := cc.ClientAssertionType, ClientAssertion := cc.ClientAssertion }
+
+/-- `LegacyServer.VerifyClient`, as a readable function: the client_credentials grant goes to the storage; every other grant
+    authenticates exactly as the Provider router's `AuthorizeCodeClient` does (`C04.authClientSpec`, without the PKCE
+    requirement for public clients, which `LegacyServer.CodeExchange` imposes itself) - characterisation lemma -/
+theorem legacyVerifyClient_eq' {now : Int} {p : Provider} {F : FormVals} {cc : ClientCredentials} :
+    LegacyVerifyClient now ⟨p⟩ { Form := F, Data := cc } =
+      if F.Get "grant_type" = Const.GrantTypeClientCredentials then
+        (if p.store.is_ClientCredentialsStorage = true then p.store.ClientCredentials cc.ClientID cc.ClientSecret else .error "ErrUnsupportedGrantType")
+      else C04.authClientSpec now (ccAsReq cc) p true := by
+  unfold LegacyVerifyClient C04.authClientSpec ccAsReq
+  simp only [AuthorizeClientIDSecret, Provider.Storage, Provider.AuthMethodPrivateKeyJWTSupported, Provider.AuthMethodPostSupported,
+    OPClient.AuthMethod, Go.ok]
+  go_eq [Const.AuthMethodNone, Const.AuthMethodPrivateKeyJWT, Const.AuthMethodPost]
+
+theorem legacyVerifyClient_eq {now : Int} {p : Provider} {g : String} {cc : ClientCredentials} :
+    LegacyVerifyClient now ⟨p⟩ { Form := { kv := [("grant_type", g)] }, Data := cc } =
+      if g = Const.GrantTypeClientCredentials then
+        (if p.store.is_ClientCredentialsStorage = true then p.store.ClientCredentials cc.ClientID cc.ClientSecret else .error "ErrUnsupportedGrantType")
+      else C04.authClientSpec now (ccAsReq cc) p true := by
+  rw [legacyVerifyClient_eq', formGet_grant]
+
 /-- Server router: `VerifyClient` for a grant other than client_credentials -/
 theorem legacyVerifyClient_authAs {now : Int} {p : Provider} {g : String} {cc : ClientCredentials} {c : OPClient}
     (h : LegacyVerifyClient now ⟨p⟩ { Form := { kv := [("grant_type", g)] }, Data := cc } = .ok c)
     (hg : g ≠ Const.GrantTypeClientCredentials) :
     AuthAs now p cc.ClientID cc.ClientSecret cc.ClientAssertionType cc.ClientAssertion c := by
-  unfold LegacyVerifyClient AuthorizeClientIDSecret at h
-  simp only [formGet_grant, Provider.Storage, Provider.AuthMethodPrivateKeyJWTSupported, Provider.AuthMethodPostSupported,
-    OPClient.AuthMethod] at h
-  have hg' : (g == Const.GrantTypeClientCredentials) = false := by simpa using hg
-  simp only [hg', Bool.false_eq_true, if_false] at h
-  repeat' (split at h <;> try (simp at h))
-  all_goals first
-    | (right; subst h; refine ⟨by simp_all, by assumption, ?_⟩
-       first
-         | (left; simp_all; done)
-         | (right; refine ⟨by simp_all [Const.AuthMethodNone, Const.AuthMethodPrivateKeyJWT, Const.AuthMethodPost], by simp_all, C04.match_secret (by assumption)⟩))
-    | (left
-       have hk := C14.c14_private_key_client h
-       obtain ⟨j, hj, hc, ha, _⟩ := hk
-       exact ⟨by simp_all, by simp_all, by simp_all, j, hj, hc, ha⟩)
+  rw [legacyVerifyClient_eq, if_neg hg] at h
+  exact (C04.authClientSpec_ok h).1
 
 theorem withClient_authAs {now : Int} {p : Provider} {g : String} {cc : ClientCredentials} {ha : Bool} {c : OPClient}
     (h : withClient now p g cc ha = .ok c) (hg : g ≠ Const.GrantTypeClientCredentials) (hg' : g ≠ "") :
@@ -370,11 +396,10 @@ theorem wantsRefresh_refresh (r : RefreshReq) (c : OPClient) (cur : String) : wa
     response type code and the client is registered for the refresh grant -/
 theorem wantsRefresh_code (a : AuthReq) (c : OPClient) (k : String) :
     wantsRefresh (.code a c k) = (a.scopes.contains "offline_access" && a.responseType == "code" && c.grants.contains "refresh_token") := by
-  simp only [wantsRefresh, Gen.needsRefreshToken, TokReq.as_AuthRequest, Go.contains, AuthReq.GetScopes, AuthReq.GetResponseType,
-    Const.ScopeOfflineAccess, Const.ResponseTypeCode, Const.GrantTypeRefreshToken]
-  congr 1
-  have : ValidateGrantType 0 c "refresh_token" = true ↔ "refresh_token" ∈ c.grants := C04.validateGrantType_iff
-  cases hv : ValidateGrantType 0 c "refresh_token" <;> cases hc : c.grants.contains "refresh_token" <;> simp_all
+  unfold wantsRefresh Gen.needsRefreshToken
+  simp only [TokReq.as_AuthRequest, Go.contains, AuthReq.GetScopes, AuthReq.GetResponseType,
+    Const.ScopeOfflineAccess, Const.ResponseTypeCode, Const.GrantTypeRefreshToken, C04.validateGrantType_eq]
+  go_leaf
 
 theorem applyIssue_code (s : Flow.St) (a : AuthReq) (c : OPClient) (k : String) :
     (applyIssue s (.code a c k)).store.authReqs = s.store.authReqs.filter (·.id != a.id) ∧
@@ -549,6 +574,19 @@ end FlowObs
 namespace FlowObs
 open Go Gen Hand Flow
 
+/-- `AuthorizeCallback`, as a readable function (the response-writing call on the path taken): an `AuthResponse` only for a
+    stored request that is `Done()` - characterisation lemma of the regenerated definition -/
+def callbackSpec (id : String) (p : Provider) : List Go.HCall :=
+  if id = "" then [Go.hcall "AuthRequestError" []] else
+  match p.store.authReqs.find? (·.id == id) with
+  | none => [Go.hcall "AuthRequestError" []]
+  | some a => if a.done = true then [Go.hcall "AuthResponse" []] else [Go.hcall "AuthRequestError" ["ErrInteractionRequired"]]
+
+theorem authorizeCallback_eq (now : Int) (id : String) (p : Provider) : GenFlow.AuthorizeCallback now { id := id } p = callbackSpec id p := by
+  unfold GenFlow.AuthorizeCallback callbackSpec
+  simp only [Hand.flowParseCallback, Provider.Storage, Store.AuthRequestByID, AuthReq.Done]
+  go_eq []
+
 /-- the callback step, spelled out: the REGENERATED guard of `AuthorizeCallback` hands out a code only for a stored
     request that is `Done()` -/
 theorem step_callback (now : Int) (s : Flow.St) (id code : String) :
@@ -559,11 +597,10 @@ theorem step_callback (now : Int) (s : Flow.St) (id code : String) :
       | some a =>
         if !a.done then (s, .error "ErrInteractionRequired")
         else (s.setStore { s.store with codes := (s.store.codes.filter (·.1 != code)) ++ [(code, id)] }, .code code) := by
-  simp only [Flow.step, GenFlow.AuthorizeCallback, Hand.flowParseCallback, Provider.Storage, Store.AuthRequestByID, AuthReq.Done,
-    Go.hcall, saveCode, St.store]
-  by_cases h0 : (id == "") = true
+  simp only [Flow.step, authorizeCallback_eq, callbackSpec, Go.hcall, saveCode, St.store]
+  by_cases h0 : id = ""
   · simp [h0]
-  · simp only [h0, Bool.false_eq_true, if_false]
+  · simp only [h0, if_false, beq_iff_eq]
     cases hf : s.p.store.authReqs.find? (·.id == id) with
     | none => simp
     | some a => by_cases hd : a.done = true <;> simp [hd]
@@ -597,22 +634,32 @@ theorem callback_guard (now : Int) (s : Flow.St) (id code c : String) (h : (Flow
 /-- what an id_token_hint can do to the pending request, as regenerated from `ValidateAuthReqIDTokenHint`: a subject on a
     pending request always comes from a token `VerifyIDTokenHint` accepted (issuer, signature by the provider's own key) - as
     valid or as merely expired; without a hint there is no subject -/
+theorem validateAuthReqIDTokenHint_eq (now : Int) (tokenOf : String → Token) (raw : String) (v : Verifier) :
+    GenFlow.ValidateAuthReqIDTokenHint now tokenOf raw v =
+      if raw = "" then .ok "" else
+      match Gen.VerifyIDTokenHint now (tokenOf raw) v with
+      | .error _ => .error "ErrLoginRequired"
+      | .ok o => .ok (Hand.flowHintClaims o).sub := by
+  unfold GenFlow.ValidateAuthReqIDTokenHint
+  simp only [Hand.flowViaToken, Claims.GetSubject]
+  go_eq []
+
 theorem hint_subject_sound (now : Int) (tokenOf : String → Token) (raw : String) (v : Verifier) (sub : String)
     (h : GenFlow.ValidateAuthReqIDTokenHint now tokenOf raw v = .ok sub) (hsub : sub ≠ "") :
     raw ≠ "" ∧ ∃ c, c.sub = sub ∧
       (Gen.VerifyIDTokenHint now (tokenOf raw) v = .ok (.valid c) ∨ ∃ e, Gen.VerifyIDTokenHint now (tokenOf raw) v = .ok (.expired c e)) := by
-  unfold GenFlow.ValidateAuthReqIDTokenHint Hand.flowViaToken at h
+  rw [validateAuthReqIDTokenHint_eq] at h
   split at h
   · simp at h; exact absurd h hsub
   · rename_i hraw
-    refine ⟨by simpa using hraw, ?_⟩
+    refine ⟨hraw, ?_⟩
     cases hv : Gen.VerifyIDTokenHint now (tokenOf raw) v with
     | error e => rw [hv] at h; simp at h
     | ok o =>
       rw [hv] at h
       cases o with
-      | valid c => exact ⟨c, by simpa [Hand.flowHintClaims, Claims.GetSubject] using h, Or.inl rfl⟩
-      | expired c e => exact ⟨c, by simpa [Hand.flowHintClaims, Claims.GetSubject] using h, Or.inr ⟨e, rfl⟩⟩
+      | valid c => exact ⟨c, by simpa [Hand.flowHintClaims] using h, Or.inl rfl⟩
+      | expired c e => exact ⟨c, by simpa [Hand.flowHintClaims] using h, Or.inr ⟨e, rfl⟩⟩
 
 theorem good04_callback {now : Int} {s : Flow.St} {o : ObsState} (h : Inv04 s o) (id code : String) :
     Good04 now s o (.callback id code) := by
@@ -661,16 +708,16 @@ theorem good04_callback {now : Int} {s : Flow.St} {o : ObsState} (h : Inv04 s o)
 
 theorem pkce_of_verify {now : Int} {ch : CodeChallenge} {v : String} (hv : v ≠ "")
     (h : VerifyCodeChallenge now (some ch) v = true) : C04.pkceOK ch v = true := by
-  simp [VerifyCodeChallenge, Go.isNil, Nilable.isNil, Go.getOpt, NewSHACodeChallenge, Const.CodeChallengeMethodS256] at h
+  obtain ⟨c, hc, hch⟩ := C04.verifyCodeChallenge_iff.1 h
+  cases hc
   have hv' : (v != "") = true := by simpa using hv
   simp only [C04.pkceOK, hv', Bool.true_and]
   by_cases hm : ch.Method = "S256"
-  · simp only [hm, if_true, beq_self_eq_true] at h ⊢
-    rw [beq_iff_eq]; exact h.symm
-  · have hm' : (ch.Method == "S256") = false := by simpa using hm
-    simp only [hm, if_false] at h
-    simp only [hm', Bool.false_eq_true, if_false]
-    rw [beq_iff_eq]; exact h.symm
+  · simp only [hm, Const.CodeChallengeMethodS256, if_true, NewSHACodeChallenge] at hch
+    simp [hm, hch]
+  · have hm' : ¬ ch.Method = Const.CodeChallengeMethodS256 := hm
+    simp only [hm', if_false] at hch
+    simp [hm, hch]
 
 /-- the monitor accepts every successful code exchange of the model -/
 theorem judge_ok {now : Int} {s : Flow.St} {o : ObsState} (h : Inv04 s o) {req : AccessTokenRequest}
@@ -679,7 +726,7 @@ theorem judge_ok {now : Int} {s : Flow.St} {o : ObsState} (h : Inv04 s o) {req :
     (hpk1 : a.challenge ≠ none → req.CodeVerifier ≠ "" ∧ VerifyCodeChallenge now a.challenge req.CodeVerifier = true)
     (hpk2 : c.auth = Const.AuthMethodNone → a.challenge ≠ none)
     (hauth : AuthAs now s.p req.ClientID req.ClientSecret req.ClientAssertionType req.ClientAssertion c) :
-    C04.judge o.m04 now (presentedCode req) (some { subject := a.subject, client := c.id, scopes := a.scopes, nonce := a.nonce }) = none ∧
+    (∀ nr, C04.judge o.m04 now (presentedCode req) (some (tokensOf a c nr)) = none) ∧
     ∃ id, (req.Code, id) ∈ s.store.codes ∧ s.store.authReqs.find? (·.id == id) = some a := by
   obtain ⟨id, hmem, hfind⟩ := storeLookup hl
   refine ⟨?_, id, hmem, hfind⟩
@@ -693,11 +740,16 @@ theorem judge_ok {now : Int} {s : Flow.St} {o : ObsState} (h : Inv04 s o) {req :
     callerIs_of_authAs (pr := presentedCode req) h.cfg rfl rfl rfl hauth
   have hgr : c.grants.contains "authorization_code" = true := by simpa [Const.GrantTypeCode] using hgrant
   have hredb : (req.RedirectURI != a.redirectURI) = false := by simp [hred]
+  -- every single token of the response carries the request's values (the authenticated client IS the request's client)
+  have hcar : ∀ nr, (carriedOf a c nr).findSome? (C04.carriedBad a) = none := by
+    intro nr
+    cases nr <;> simp [carriedOf, C04.carriedBad, hcid]
+  intro nr
   unfold C04.judge
-  simp only [presentedCode] at hcaller ⊢
+  simp only [presentedCode, tokensOf] at hcaller ⊢
   simp only [hiss, hdone, hclient, hgr, hredb, Bool.false_eq_true, if_false, Bool.not_true, bne_self_eq_false]
   rw [hcaller]
-  simp only [Bool.not_true, Bool.false_eq_true, if_false, hcid, bne_self_eq_false]
+  simp only [Bool.not_true, Bool.false_eq_true, if_false, hcid, bne_self_eq_false, hcar]
   cases hch : a.challenge with
   | none =>
     have : c.auth ≠ Const.AuthMethodNone := fun hn => hpk2 hn hch
